@@ -5,12 +5,14 @@ import (
 	"fmt"
 	"runtime"
 	"strings"
+	"time"
 
 	"github.com/gregoryv/mq"
 
 	"verif/mc/bind"
 	"verif/mc/core"
 	"verif/mc/digest"
+	"verif/mc/gen"
 	"verif/mc/spec"
 )
 
@@ -22,6 +24,8 @@ func init() {
 		Title: "Decoding terminates with work and memory bounded by the frame size",
 		Level: "model_checking",
 		Rule: "the input families F1-F5 of C04 plus long members of the repeated-section families (1 000 and 10 000 filters / reason codes / user properties / subscription identifiers - identical elements, pairwise distinct elements, and pairwise distinct elements colliding under the multiply-by-31 string hash: valid, truncated at every field boundary of the last three elements, and with inconsistent declared lengths), all on the statement-instrumented build. " +
+			"Wide lists: the same sections spanning more than 64 KiB and more than 128 KiB with element sizes of 1, 2, 4 and 8 bytes (a 16-bit offset comes back to the same place), valid, decoded directly, and cut at 65535/65536/65537 bytes. " +
+			"Cumulative: 300 MiB of 1.3 MB frames (complete and malformed, complete and valid, cut short) - and as many bytes as every process-wide limit the tree under test names in a constant above 4 MiB - are decoded in one process without any reset, then every small valid frame of the stream corpus: each call runs under a 30 s watchdog (a call that waits for a lock or a condition executes no statements and is reported as blocking), must stay within its step budget and must succeed. " +
 			"Every stream-corpus frame is also decoded and kept while all the others are decoded three times after it: its retained size and list lengths must not grow. Deterministic oracles with fixed constants: (1) statement points executed <= 2000 + 200*len(input) — an input that loops is cut off by the step budget and reported, never waited for; (2) deep retained size of the returned packet <= 4 KiB + 64*len(input) and every list accessor no longer than the input; (3) bytes allocated during the call <= 16 KiB + 256*declared length (measured on every length-edited and long input and on one input per (family, type, length) class of the other families in the quick tier, on every input in the thorough tier); (4) steps(10 000 elements)/steps(1 000 elements) <= 12. " +
 			"distinct_nontrivial = distinct inputs (content hash) whose decoding entered a body.",
 		Assumptions: []string{
@@ -38,6 +42,10 @@ func init() {
 					}
 				}
 				return nil
+			}
+			if c.Harness == "c05.cumulative" {
+				total, _ := c.Params["total"].(float64)
+				return c05Cumulative(int64(total))
 			}
 			if c.Harness == "c05.kept" {
 				return c05Kept(streamCorpus(), paramInt(c.Params, "index"))
@@ -458,6 +466,28 @@ func runC05(x *core.Ctx) {
 			}
 		}
 	}
+	// what a process accumulates over many calls: big frames (complete and
+	// malformed, complete and valid, cut short) decoded one after the other
+	// without anything being reset in between, 300 MiB of them - and as many
+	// as the largest limits the tree under test names in its constants -
+	// then small frames: each must still be decoded, within its budget,
+	// without waiting for anything
+	if x.Mine() {
+		totals := []int64{300 << 20}
+		for _, b := range Mined.NovelBudgets {
+			if b <= 8<<30 {
+				totals = append(totals, b+b/8)
+			}
+		}
+		for _, total := range totals {
+			total := total
+			x.Eval("cumulative")
+			if f := c05Cumulative(total); f != nil {
+				x.Report(f, func() core.Case { return core.Case{Harness: "c05.cumulative", Params: map[string]any{"total": total}} }, func() *core.Finding { return c05Cumulative(total) })
+				return // this process may be left with a call that never returns
+			}
+		}
+	}
 	for _, lf := range longWide() {
 		if !x.Mine() {
 			continue
@@ -494,6 +524,60 @@ func runC05(x *core.Ctx) {
 	for k, v := range maxSteps {
 		x.R.Extra[k] = v
 	}
+}
+
+// c05Cumulative feeds big frames until their sizes add up to total, then
+// small ones. Every call runs under a watchdog: a call that has not returned
+// after 30 s although its step budget is not used up is waiting for
+// something (a lock, a condition) - reported as not terminating.
+func c05Cumulative(total int64) *core.Finding {
+	resetGlobals()
+	const size = 1_300_000
+	valid := mustEncode(&spec.Packet{Type: 3, Topic: []byte("big"), Payload: gen.Content('L', size)}, spec.Form{})
+	// complete frame, content malformed: an undefined property identifier
+	body := append([]byte{0, 3, 'b', 'i', 'g', 2, 0x7e, 0x00}, gen.Content('L', size)...)
+	malformed := reframe(0x30, body)
+	cut := valid[:len(valid)/2]
+	call := func(stream []byte) (p mq.Packet, err error, res callResult, returned bool) {
+		done := make(chan struct{})
+		go func() {
+			defer close(done)
+			p, err, res = readPacket(bytes.NewReader(stream), stepBudget(len(stream)))
+		}()
+		select {
+		case <-done:
+			return p, err, res, true
+		case <-time.After(30 * time.Second):
+			return nil, nil, callResult{}, false
+		}
+	}
+	fed := int64(0)
+	for i := 0; fed < total; i++ {
+		fr := [][]byte{malformed, valid, cut, malformed}[i%4]
+		_, _, res, ok := call(fr)
+		if !ok {
+			return &core.Finding{Class: "blocks/after-many-big-frames", Detail: fmt.Sprintf("after %d MiB of big frames (complete and malformed, complete and valid, cut short) decoded in this process, ReadPacket on a %d-byte frame has not returned after 30 s and is not executing statements: it waits for something", fed>>20, len(fr))}
+		}
+		if res.Budget {
+			return &core.Finding{Class: "work-unbounded/after-many-big-frames", Detail: fmt.Sprintf("after %d MiB of big frames ReadPacket exceeds its step budget on a %d-byte frame", fed>>20, len(fr))}
+		}
+		fed += int64(len(fr))
+	}
+	for _, sm := range streamCorpus() {
+		if !sm.Valid || len(sm.B) > 64 {
+			continue
+		}
+		p, err, res, ok := call(sm.B)
+		switch {
+		case !ok:
+			return &core.Finding{Class: "blocks/small-frame-after-many-big-ones", Detail: fmt.Sprintf("after %d MiB of big frames (complete and malformed, complete and valid, cut short) decoded in this process, ReadPacket on the valid %d-byte frame %s (% x) has not returned after 30 s and is not executing statements: it waits for something", fed>>20, len(sm.B), sm.Name, sm.B)}
+		case res.Budget:
+			return &core.Finding{Class: "work-unbounded/small-frame-after-many-big-ones", Detail: fmt.Sprintf("after %d MiB of big frames ReadPacket exceeds its step budget on the valid frame %s", fed>>20, sm.Name)}
+		case res.Panic == "" && (err != nil || p == nil):
+			return &core.Finding{Class: "rejects/small-frame-after-many-big-ones", Detail: fmt.Sprintf("after %d MiB of big frames ReadPacket rejects the valid frame %s (% x): %v", fed>>20, sm.Name, sm.B, err)}
+		}
+	}
+	return nil
 }
 
 // c05SmallAfterLarge decodes the large frame and then the small one,
